@@ -106,6 +106,12 @@ def gen_cases(r: Run):
             t2 = Fraction(rng.randint(0, 1229), 1024) if rng.random() < 0.4 else Fraction(rng.randint(0, 300), 1024)
             tot = sum(i for _, i in l)
             add("fused", [t1 * tot if rng.random() < 0.5 else t1, t2, Fraction(rng.randint(-64000, 64000), 64)], exact=False)
+        if is_norm:
+            # ties that are exact in f64 too: the list sums to exactly 1 and the first threshold keeps everything, so
+            # the retained total is 1 and "intensity >= t2" is decided on identical numbers by the fused and the
+            # step-wise form — a filter threshold sitting exactly ON an intensity must keep that peak
+            for t2 in (its[0], its[len(its) // 2], its[-1]):
+                add("fused", [Fraction(rng.choice([1, 2])), t2, Fraction(rng.randint(-64000, 64000), 64)], exact=True)
         a = rng.randint(0, n)
         b = rng.randint(a, n)
         add("slice", [Fraction(a), Fraction(b)])
@@ -201,7 +207,7 @@ def compare(c, impl_line, drv_line):
         return "broken", f"driver said {drv_line[:100]}"
     model_s, spec_s, margin_s = parts
     margin = None if margin_s == "inf" else Fraction(margin_s)
-    boundary = margin is not None and margin < MARGIN and not (c.get("exact") and c["op"] in ("trunc", "ignore", "incr"))
+    boundary = margin is not None and margin < MARGIN and not (c.get("exact") and c["op"] in ("trunc", "ignore", "incr", "fused"))
     if c["op"] == "eq":
         if boundary:
             return "skipped", ""
